@@ -567,7 +567,8 @@ fn cmd_dbg(ops: &[String]) -> i32 {
     let ops: Vec<String> = ops.to_vec();
     exec::want_backtrace(true);
     exec::in_fresh_thread(move || {
-        let mut s: sess::Sess<LS, ()> = sess::Sess::new(EGraph::new(()), 0);
+        let naming: u32 = std::env::var("SIM_NAMING").ok().and_then(|x| x.parse().ok()).unwrap_or(0);
+        let mut s: sess::Sess<LS, ()> = sess::Sess::new(EGraph::new(()), naming);
         for o in &ops {
             println!("==== {o}");
             let r = exec::catch(|| {
